@@ -18,6 +18,7 @@ package main
 
 import (
 	"bytes"
+	"errors"
 	"fmt"
 	"io"
 	"log"
@@ -50,10 +51,21 @@ type c19Rec struct {
 	logs    map[string]int // logger token -> messages received
 	loggers map[string]*logging.Instance
 	writers map[string]*bytes.Buffer
+	fail    map[string]bool // "<option name>:<token>" -> that hook returns errC19Hook
+}
+
+var errC19Hook = errors.New("verif: hook failed on purpose")
+
+func (r *c19Rec) hook(name, tok string) error {
+	r.call(tok)
+	if r.fail[name+":"+tok] {
+		return errC19Hook
+	}
+	return nil
 }
 
 func newC19Rec() *c19Rec {
-	return &c19Rec{logs: map[string]int{}, loggers: map[string]*logging.Instance{}, writers: map[string]*bytes.Buffer{}}
+	return &c19Rec{logs: map[string]int{}, loggers: map[string]*logging.Instance{}, writers: map[string]*bytes.Buffer{}, fail: map[string]bool{}}
 }
 
 func (r *c19Rec) call(tok string) {
@@ -102,13 +114,13 @@ func effectOption(o c19Opt, rec *c19Rec, chlogs map[string]*c19SyncBuf) (util.Op
 	tok := argS(o, 0)
 	switch o.name {
 	case "WithOnOpen":
-		return options.WithOnOpen(func(*generic.Driver) error { rec.call(tok); return nil }), nil
+		return options.WithOnOpen(func(*generic.Driver) error { return rec.hook(o.name, tok) }), nil
 	case "WithOnClose":
-		return options.WithOnClose(func(*generic.Driver) error { rec.call(tok); return nil }), nil
+		return options.WithOnClose(func(*generic.Driver) error { return rec.hook(o.name, tok) }), nil
 	case "WithNetworkOnOpen":
-		return options.WithNetworkOnOpen(func(*network.Driver) error { rec.call(tok); return nil }), nil
+		return options.WithNetworkOnOpen(func(*network.Driver) error { return rec.hook(o.name, tok) }), nil
 	case "WithNetworkOnClose":
-		return options.WithNetworkOnClose(func(*network.Driver) error { rec.call(tok); return nil }), nil
+		return options.WithNetworkOnClose(func(*network.Driver) error { return rec.hook(o.name, tok) }), nil
 	case "WithLogger":
 		return options.WithLogger(rec.logger(tok)), nil
 	case "WithChannelLog":
@@ -477,7 +489,7 @@ func genEffect(r *vlib.Rng, flavour string, platNames []string, platDoc map[stri
 func (e *c19Effect) modelOpts(port int) []c19Opt {
 	u := append([]c19Opt{}, e.user...)
 	switch e.flavour {
-	case "dev", "ncdev":
+	case "dev", "devfail", "devfailclose", "ncdev":
 		u = append(u, opt1("WithCustomTransport", "impl:0"))
 	case "telnet":
 		u = append(u, opt1("WithTransportType", "telnet"), opt1("WithPort", strconv.Itoa(port)),
@@ -486,7 +498,7 @@ func (e *c19Effect) modelOpts(port int) []c19Opt {
 		u = append(u, opt1("WithTransportType", "system"), opt1("WithSystemTransportOpenBin", c19Standin))
 	}
 	if e.flavour != "system" {
-		u = append(u, opt1("WithTimeoutOps", strconv.FormatInt(int64(3*time.Second), 10)))
+		u = append(u, opt1("WithTimeoutOps", strconv.FormatInt(int64(1500*time.Millisecond), 10)))
 	}
 	return u
 }
@@ -542,6 +554,21 @@ func (env *c19EffectEnv) evalEffect(e *c19Effect, port int, ln net.Listener, ans
 
 	// ---- build the real options
 	rec := newC19Rec()
+	failOpen := ""
+	if e.flavour == "devfail" {
+		if t := specS(S, "network.Driver.OnOpen"); isNet && strings.HasPrefix(t, "nfn:") {
+			failOpen = "WithNetworkOnOpen:" + t
+		} else if t := specS(S, "generic.Driver.OnOpen"); strings.HasPrefix(t, "gfn:") {
+			failOpen = "WithOnOpen:" + t
+		}
+		if failOpen != "" {
+			rec.fail[failOpen] = true
+		}
+	}
+	if e.flavour == "devfailclose" {
+		rec.fail["WithOnClose:"+specS(S, "generic.Driver.OnClose")] = true
+		rec.fail["WithNetworkOnClose:"+specS(S, "network.Driver.OnClose")] = true
+	}
 	chlogs := map[string]*c19SyncBuf{}
 	var opts []util.Option
 	for _, o := range e.user {
@@ -554,7 +581,7 @@ func (env *c19EffectEnv) evalEffect(e *c19Effect, port int, ln net.Listener, ans
 	}
 	var nc *sim.NCServer
 	switch e.flavour {
-	case "dev":
+	case "dev", "devfail", "devfailclose":
 		opts = append(opts, options.WithCustomTransport(dev))
 	case "ncdev":
 		nc = sim.NewNCServer(true, true)
@@ -566,7 +593,7 @@ func (env *c19EffectEnv) evalEffect(e *c19Effect, port int, ln net.Listener, ans
 		opts = append(opts, options.WithTransportType("system"), options.WithSystemTransportOpenBin(c19Standin))
 	}
 	if e.flavour != "system" {
-		opts = append(opts, options.WithTimeoutOps(3*time.Second))
+		opts = append(opts, options.WithTimeoutOps(1500*time.Millisecond))
 	}
 	host := c19Host
 	if e.flavour == "telnet" {
@@ -725,6 +752,19 @@ func (env *c19EffectEnv) evalEffect(e *c19Effect, port int, ln net.Listener, ans
 	}()
 	select {
 	case oerr := <-openErr:
+		if failOpen != "" {
+			// the configured on-open hook fails: Open must hand that error back and must not leave
+			// the transport open
+			if !errors.Is(oerr, errC19Hook) {
+				fail("on-open-error-lost", "the configured hook %s returned an error, Open returned %v", failOpen, oerr)
+			}
+			time.Sleep(time.Millisecond)
+			if _, _, closed, _ := dev.snapshot(); !closed {
+				fail("on-open-error-leaves-open", "the configured hook %s failed, yet the transport is still open", failOpen)
+			}
+			res.Count("effect:dev-on-open-error")
+			return
+		}
 		if oerr != nil {
 			lines, _, _, _ := dev.snapshot()
 			fail("open-failed", "Open fails (%v) against a device that shows user prompt %q, password prompt %q, prompt %q and expects return %q (bypass=%v); device received %q",
@@ -747,13 +787,16 @@ func (env *c19EffectEnv) evalEffect(e *c19Effect, port int, ln net.Listener, ans
 	if isNet && specS(S, "network.Driver.OnOpen") == "<platform-fn>" {
 		demand++
 	}
-	dev.waitLines(demand, 3*time.Second)
+	dev.waitLines(demand, 1500*time.Millisecond)
 	lines, opens, _, args := dev.snapshot()
 	// the transport was opened once, with the configured arguments
 	if opens != 1 {
 		fail("opens", "transport opened %d times", opens)
 	}
-	if e.flavour == "dev" {
+	if e.flavour != "telnet" {
+		if gd.Transport.GetHost() != host || strconv.Itoa(gd.Transport.GetPort()) != specS(S, "transport.Args.Port") {
+			fail("transport-getters", "Transport.GetHost/GetPort = %q %d, configured %q %s", gd.Transport.GetHost(), gd.Transport.GetPort(), host, specS(S, "transport.Args.Port"))
+		}
 		if got, want := strconv.Itoa(args.Port), specS(S, "transport.Args.Port"); got != want {
 			fail("args-port", "transport.Open saw port %s, configured %s", got, want)
 		}
@@ -850,12 +893,12 @@ func (env *c19EffectEnv) evalEffect(e *c19Effect, port int, ln net.Listener, ans
 	if specS(S, "generic.Driver.OnClose") == "<platform-fn>" {
 		wantAfter++
 	}
-	dev.waitLines(wantAfter, 3*time.Second)
+	dev.waitLines(wantAfter, 1500*time.Millisecond)
 	linesAfter, _, closed, _ := dev.snapshot()
 	if len(linesAfter) != wantAfter {
 		fail("on-close-platform", "device received %d lines in all (%q), the configured platform on-close hooks demand %d", len(linesAfter), linesAfter, wantAfter)
 	}
-	if e.flavour == "dev" && !closed {
+	if e.flavour != "telnet" && !closed {
 		fail("not-closed", "Close left the transport open")
 	}
 	env.judgeLogger(specS(S, "generic.Driver.Logger"), "generic.Driver.Logger", rec, fail)
@@ -901,6 +944,16 @@ func (env *c19EffectEnv) judgeLogger(want, field string, rec *c19Rec, fail func(
 	}
 }
 
+func effectFails(res *vlib.Result) int {
+	n := 0
+	for k, v := range res.Distribution {
+		if strings.HasPrefix(k, "finding:oracle:effect:") {
+			n += v
+		}
+	}
+	return n
+}
+
 // runC19Effects generates, asks and evaluates the effect class.
 func runC19Effects(c *ctx, baseline map[string]c19Fields, platNames []string, platDoc map[string]string) int {
 	res := c.res
@@ -925,8 +978,16 @@ func runC19Effects(c *ctx, baseline map[string]c19Fields, platNames []string, pl
 			effects = append(effects, e)
 		}
 	} else {
-		for i := 0; i < c.n(900, 40000); i++ {
+		for i := 0; i < c.n(600, 40000); i++ {
 			effects = append(effects, genEffect(r, "dev", platNames, platDoc))
+		}
+		for i := 0; i < c.n(120, 4000); i++ {
+			e := genEffect(r, r.Pick([]string{"devfail", "devfailclose"}), platNames, platDoc)
+			e.user = append(e.user, opt1(r.Pick([]string{"WithOnOpen", "WithOnClose"}), "gfn:"+strconv.Itoa(r.Intn(4))))
+			if e.ctor == "network" {
+				e.user = append(e.user, opt1(r.Pick([]string{"WithNetworkOnOpen", "WithNetworkOnClose"}), "nfn:"+strconv.Itoa(r.Intn(4))))
+			}
+			effects = append(effects, e)
 		}
 		for i := 0; i < c.n(40, 1500) && ln != nil; i++ {
 			effects = append(effects, genEffect(r, "telnet", platNames, platDoc))
@@ -934,7 +995,7 @@ func runC19Effects(c *ctx, baseline map[string]c19Fields, platNames []string, pl
 		for i := 0; i < c.n(150, 6000); i++ {
 			effects = append(effects, genEffect(r, "system", platNames, platDoc))
 		}
-		for i := 0; i < c.n(150, 6000); i++ {
+		for i := 0; i < c.n(60, 3000); i++ {
 			effects = append(effects, genEffect(r, "ncdev", platNames, platDoc))
 		}
 	}
@@ -958,19 +1019,36 @@ func runC19Effects(c *ctx, baseline map[string]c19Fields, platNames []string, pl
 	}
 	ans := c.ask(lines)
 	shrunk := map[string]bool{}
+	spent := map[string]time.Duration{}
+	failed, failedOpen := 0, 0
+	defer func() {
+		if c.replay == "" {
+			res.Note("effect class wall time per flavour: %v", spent)
+		}
+	}()
 	for i := range effects {
 		e := &effects[i]
 		n := 1
 		if e.flavour == "system" {
 			n = 2
 		}
+		if failed >= 6 && c.replay == "" {
+			res.Note("effect class stopped after %d failing cases (every failing open waits for its timeout); %d of %d cases evaluated", failed, i, len(effects))
+			break
+		}
 		res.Count("class:effect-" + e.flavour)
 		res.Case(e.line(), true)
 		before := len(res.Findings)
+		t0 := time.Now()
 		env.evalEffect(e, port, ln, ans[idx[i]:idx[i]+n], res)
+		spent[e.flavour] += time.Since(t0)
+		if n := effectFails(res); n > failedOpen {
+			failed++
+			failedOpen = n
+		}
 		for fi := before; fi < len(res.Findings) && c.replay == ""; fi++ {
 			fd := &res.Findings[fi]
-			if fd.Kind != "oracle" || shrunk[fd.Signature] {
+			if fd.Kind != "oracle" || shrunk[fd.Signature] || len(shrunk) >= 2 {
 				continue
 			}
 			shrunk[fd.Signature] = true
@@ -985,7 +1063,7 @@ func runC19Effects(c *ctx, baseline map[string]c19Fields, platNames []string, pl
 				}
 				return "", false
 			}
-			detail, budget := fd.Detail, 40
+			detail, budget := fd.Detail, 8
 			for changed := true; changed && budget > 0; {
 				changed = false
 				for j := 0; j < len(cur.user) && budget > 0; j++ {
